@@ -6,11 +6,21 @@ NOTES = ("Solver-based checking of the real code. Exit codes: 0 holds within the
 ENGINES = [
     {"name": "symnp+shadow", "path": "engine/symnp.py, engine/shadow.py", "serves_properties": ["C04"],
      "kind_free_text": "the current source of _type_casting/_core/serde is recompiled into shadow modules whose numpy/mmap/open/os globals are shims over z3 bit-vector cells and z3 arrays; the real tensor code then runs on fully symbolic payloads, offsets and file contents"},
-    {"name": "zsym", "path": "engine/zsym.py", "serves_properties": ["C04", "C07"],
+    {"name": "zsym", "path": "engine/zsym.py", "serves_properties": ["C04", "C07", "C10"],
      "kind_free_text": "execution of the real functions on z3 Int/Real/String proxies with re-execution DFS over branch decisions; property = SMT query per path"},
 ]
 NOT_APPLICABLE = {}
 CHECKS = {
+    "C10": dict(
+        engine="zsym (z3 strings) + shadow _core/_io", level="other", design_ref="DESIGN.md section 4 / C10",
+        technique="symbolic execution of the real containment check, read entry points and load() over z3 strings with nondeterministic contract-constrained os stubs; SMT (sequence theory + EUF + LIA)",
+        text=("The real three-layer containment check runs with base directory and location as symbolic strings and with abspath/realpath/stat as arbitrary functions constrained only by their "
+              "contracts; z3 proves: accepted => component-wise lexical containment AND resolved containment AND single link, for all strings within the length bound. Every read entry point is proved "
+              "to open the file only after a successful check (check outcome symbolic). load() is proved to hand out a non-empty base directory for every spelling of a file path. Counterexamples are "
+              "realised as real directory trees with symlinks/hard links and read through the real library before being reported."),
+        note=("Trusted: z3; the os stubs' contracts (canonical-path shape of abspath/realpath, stat/lstat relation); posixpath.join/dirname transcriptions (validated at start-up). "
+              "Kernel symlink/hard-link semantics and Windows paths are not decided."),
+    ),
     "C04": dict(
         engine="symnp+shadow (on zsym)", level="other", design_ref="DESIGN.md section 4 / C04",
         technique="symbolic execution of the real tensor code over z3 bit-vector cells + SMT equivalence with the ONNX packing specification (QF_BV, arrays, LIA)",
